@@ -212,11 +212,18 @@ def run(ctx):
             it2.p.ghost['expected_status'] = 0
             return (Opaque('remote_ae'), ListVal([]), ListVal([]))
         h.app['on_commitment_request'] = on_request
-        install_subassociation(it, h, sym_status)
+        # the delivery of the report to the remote entity may fail (it refuses the association, or never answers):
+        # the N-ACTION request itself is answered all the same ("every request that reaches a provider is
+        # answered"); the environment's failure may propagate, a failure of the provider's own may not
+        install_subassociation(it, h, sym_status, may_fail=True)
         check_send('sopclass.StorageCommitment.n_action', h, req, lambda p2: c.get('id'),
                    lambda r: dm.attrs['NActionRSPMessage'])
         svc = it.instantiate(sc.attrs['StorageCommitment'], [], {})
-        it.call(svc, [asce, c, req], {})
+        try:
+            it.call(svc, [asce, c, req], {})
+        except Raised as r:
+            if not p.ghost.get('external_failure') or r.exc.cls.name not in ('AssociationRejectedError', 'DCMTimeoutError'):
+                raise
     info('sopclass.StorageCommitment.n_action')
     info('sopclass.MessageDispatcher.get_method')
     info('sopclass.MessageDispatcherSCP.__call__')
@@ -264,9 +271,12 @@ def fresh16(it, name):
     return v
 
 
-def install_subassociation(it, h, sym_status):
-    """asce.ae.request_association(remote) -> context manager yielding a sub-association stub"""
+def install_subassociation(it, h, sym_status, may_fail=False):
+    """asce.ae.request_association(remote) -> context manager yielding a sub-association stub.
+    may_fail: the destination may refuse the association, or never answer on it (the failure is then the
+    environment's, recorded as ghost `external_failure`)"""
     from ..values import Builtin, ClassVal
+    excm = it.modules['pynetdicom2.exceptions']
 
     def m(fn):
         b = Builtin(fn.__name__, fn)
@@ -274,6 +284,9 @@ def install_subassociation(it, h, sym_status):
         return b
 
     def enter(it2, args, kw):
+        if may_fail and it2.p.branch(it2.p.fresh('destination_refuses_the_association', smt.Bool)):
+            it2.p.ghost['external_failure'] = 'destination refuses the association'
+            raise Raised(it2.instantiate(excm.attrs['AssociationRejectedError'], [1, 1, 1], {}))
         sub = h.new_asce('sub-association')
         it2.p.trace.append(('sub-association.open',))
         return sub
@@ -289,7 +302,12 @@ def install_subassociation(it, h, sym_status):
         return Obj(CM)
     h.app['request_association'] = request_association
     if 'receive' not in h.app:
-        h.app['receive'] = lambda it2, h2, a: (Opaque('response-on-sub-association'), it2.p.fresh_int('pc_id'))
+        def sub_receive(it2, h2, a):
+            if may_fail and it2.p.branch(it2.p.fresh('destination_never_answers', smt.Bool)):
+                it2.p.ghost['external_failure'] = 'destination never answers'
+                raise Raised(it2.instantiate(excm.attrs['DCMTimeoutError'], [], {}))
+            return (Opaque('response-on-sub-association'), it2.p.fresh_int('pc_id'))
+        h.app['receive'] = sub_receive
 
     def get_scu(it2, h2, a):
         it2.p.trace.append(('sub-get-scu', a[1] if len(a) > 1 else None, a[0]))
